@@ -26,7 +26,7 @@ def name_pool(seed=None):
 
         seed = int(os.environ.get("VERIF_SEED", "0")) if seed is None else seed
         rs = ReadSet()
-        for i in range(12):
+        for i in range(24):
             r = Read(f"q{seed}x{i}", 50, 0, 0)
             r.add_variant(10, 0, 1)
             rs.add(r)
@@ -431,6 +431,79 @@ def long_instances(C, i, tier):
                     yield {"ped": "trio", "C": C, "reads": treads, "distrust": False, "gt": gt, "rc": [rcv] * C}, False
 
 
+# ----------------------------------------------------------------------------- wide columns / many trios
+WIDE_C = 4
+
+
+def wide_blocks(tier):
+    """W17: columns with 17 and more active reads (bipartition indices beyond 16 bits).
+    P5: a pedigree with five trios (transmission values beyond 8 bits)."""
+    T = tier == "thorough"
+    for R in (17, 18) + ((19,) if T else ()):
+        for mi in range(len(wide_masks(R))):
+            yield ("W17", R, mi)
+    pats = child_patterns(3)
+    for a in range(len(pats)):
+        for b in range(len(pats)):
+            yield ("P5", 3, a, b)
+
+
+def wide_masks(R):
+    """which of the R - 1 wide reads stem from haplotype 1 (the others from haplotype 0)"""
+    n = R - 1
+    out = [1 << j for j in sorted({0, 1, 7, 8, 15, n - 1})]
+    out += [(1 << 0) | (1 << (n - 1)), (1 << 15) | (1 << (n - 1)), sum(1 << j for j in range(0, n, 2)), sum(1 << j for j in range(n // 2, n)), (1 << n) - 2]
+    return out
+
+
+def wide_instances(R, mi):
+    C = WIDE_C
+    hap = [[c % 2 for c in range(C)], [1 - c % 2 for c in range(C)]]
+    mask = wide_masks(R)[mi]
+    n = R - 1
+    flips = [None] + [(j, c) for j in (0, 15, n - 1) for c in (0, 1, 2)]
+    for flip in flips:
+        for tail_hap in (0, 1):
+            for first_end in (2, 3):
+                rows = []
+                for j in range(n):
+                    h = (mask >> j) & 1
+                    # read 0 reaches into the last column; the others end at column 2 (every column before the last holds all wide reads)
+                    e = first_end if j == 0 else 2
+                    row = [hap[h][c] if c <= e else -1 for c in range(C)]
+                    if flip and flip[0] == j:
+                        row[flip[1]] ^= 1
+                    rows.append(row)
+                # the last read starts in the last column (or one before) and stems from tail_hap
+                rows.append([hap[tail_hap][c] if c >= 2 else -1 for c in range(C)])
+                reads = [[0, r, [(2 if k == 0 else 1) if a_ >= 0 else 0 for a_ in r]] for k, r in enumerate(rows)]
+                yield {"ped": "single", "C": C, "reads": reads, "distrust": False, "gt": [[1] * C], "rc": [0] * C}, False
+
+
+def child_patterns(C):
+    """genotype rows of a child of a 0/1 x 0/0 mating: heterozygous (1) where it inherited the father's ALT haplotype"""
+    out = [[1] * C, [0] * C]
+    for sw in range(1, C):
+        out.append([1] * sw + [0] * (C - sw))
+        out.append([0] * sw + [1] * (C - sw))
+    return out
+
+
+def five_instances(C, a, b):
+    pats = child_patterns(C)
+    for c3 in range(len(pats)):
+        for c4 in (0, 2, 3):
+            for c5 in range(len(pats)):
+                kids = [pats[a], pats[b], pats[c3], pats[c4], pats[c5]]
+                gt = [[1] * C, [0] * C] + kids
+                for rd in (0, 1):
+                    # two reads of the father (one per haplotype); rd = 1 adds a read of the fifth child
+                    reads = [[0, [1] * C, [1] * C], [0, [0] * C, [1] * C]]
+                    if rd:
+                        reads.append([6, list(kids[4]), [1] * C])
+                    yield {"ped": "five-children", "C": C, "reads": reads, "distrust": False, "gt": gt, "rc": [5] * C}, False
+
+
 _LAYERS = {}
 
 
@@ -444,6 +517,10 @@ def make_run_block(tier):
     def run_block(block):
         if block[0] == "L5":
             it = long_instances(block[1], block[2], tier)
+        elif block[0] == "W17":
+            it = wide_instances(block[1], block[2])
+        elif block[0] == "P5":
+            it = five_instances(block[1], block[2], block[3])
         else:
             it = _layer(tier, block[0]).instances(block[1])
         n = nt = 0
@@ -463,7 +540,7 @@ def make_run_block(tier):
                 if conv == 0 and len(viols) < 8:
                     # samples are kept for the pinned reading only; the other readings are counted
                     viols.append(_v("witness", msg, inst, ex, conv=conv))
-            if inst["ped"] in ("trio", "quartet") and not flags.get("infeasible"):
+            if inst["ped"] in ("trio", "quartet", "five-children") and not flags.get("infeasible"):
                 extra["pedigree_instances"] = extra.get("pedigree_instances", 0) + 1
             if vs and len(viols) < 8:
                 viols.extend(vs)
@@ -533,6 +610,8 @@ def run(rep, tier, seed, only=None):
             yield from l.blocks()
         if not only or "L5" in only:
             yield from long_blocks(tier)
+        if not only or "wide" in only:
+            yield from wide_blocks(tier)
 
     st = par.explore(space, run_block, label="C01")
     rep.add_crashes(st.crashes, "C01")
@@ -550,7 +629,7 @@ def run(rep, tier, seed, only=None):
         "with controlled tie-breaks); non-trivial = at least two reads and a non-zero optimum",
         samples=[{"block": s} for s in st.samples[:6]],
         exhaustive=True,
-        layers=[l.name for l in L if not only or any(l.name.startswith(o) for o in only)] + ["L5"],
+        layers=[l.name for l in L if not only or any(l.name.startswith(o) for o in only)] + ["L5", "W17 (17-19 active reads per column)", "P5 (five trios)"],
         infeasible_instances=st.extra.get("infeasible", 0),
         pedigree_instances=st.extra.get("pedigree_instances", 0),
         tie_flags_seen=st.extra.get("ties", 0),
